@@ -9,6 +9,7 @@ from mc import core, hist, lib
 from scoda.sequences.sequence import Sequence
 
 ENGINE = "E1-sweep"
+TICK_EVERY = 5      # every 5th case of every unit is repeated with numpy integer ticks (int64 / int32)
 RULE = ("all lists of 1-3 well-formed single-channel sequences (note sets over an interval/pitch/velocity alphabet with "
         "leading rests, simultaneous events and abutting repeats; signature events from all 15 keys and 5 time signatures "
         "on lattice ticks, distributed over the sequences without contradiction; program changes) saved with "
